@@ -263,9 +263,21 @@ func (h *c19H) do(o c19Op) (log []string, cnt int, gotErr bool, pi *core.PanicIn
 			if o.Sub.ID != "" {
 				arg = fmt.Sprintf("(id: %q)", o.Sub.ID)
 			}
-			q := "subscription { ev" + arg + " " + sel.text + " }"
+			// the root field is written plainly, inside an inline fragment on the subscription type, inside a conditional inline
+			// fragment, or in a named fragment that is spread - in turn, by the number of subscribe requests this root has seen
+			body, frag := "ev"+arg+" "+sel.text, ""
+			switch h.labels % 4 {
+			case 1:
+				body = "... on Subscription { " + body + " }"
+			case 2:
+				body = "... @skip(if: false) { " + body + " }"
+			case 3:
+				frag = " fragment FS on Subscription { " + body + " }"
+				body = "...FS"
+			}
+			q := "subscription { " + body + " }" + frag
 			if sel.vars {
-				q = "subscription S($v: Boolean = true) { ev" + arg + " " + sel.text + " }"
+				q = "subscription S($v: Boolean = true) { " + body + " }" + frag
 			}
 			var res map[string]interface{}
 			var svars map[string]interface{}
